@@ -16,7 +16,12 @@ COMMANDS = [["cat"], ["info", "#.*"], ["type", "--binary", "NAME"], ["list", "NA
             ["show-titles", "0", "1"], ["free", "0A"], ["info", ":0B.#.*"], ["sector-map", "1"]]
 CHARS = gen.PLAIN_CHARS
 HOSTILE_ARGS = ["", "-1", "99999999999999999999", "0x10", "4294967296", "4294967295", "2147483648", "1e3", "\xff\xfe",
-                "A" * 4096, "0A", "0Z", ":0.$", ":.", "#", "*", "--", "-", "--binary", "--file", "$.", ":99999999999.$.X"]
+                "A" * 4096, "0A", "0Z", ":0.$", ":.", "#", "*", "--", "-", "--binary", "--file", "$.", ":99999999999.$.X",
+                # malformed drive / directory / name syntax
+                ":0x.$.X", ":.$.X", ":0", ":0A", ":0.", "0x", ":0..", "$.#.*", ".", "..", "#.", ".X", "::", ":0.$.", ":A.$.X",
+                ":0A.$.X", ":-1.$.X", ":0 .$.X", "$..X", "$.X.Y", ":0.$$.X", "[", "(", "\\", "a{2}", "X+", "^", "$"]
+# placeholders for --file arguments that are not ordinary image files
+ODD_FILES = ["IMGDIR", "MISSING", "NOEXT", "BADEXT", "BAREGZ", "UPPEREXT", "EMPTYSSD", "DOTONLY", "GZDIR"]
 
 
 def _small_surface(draw, variant, tracks, spt):
@@ -104,7 +109,7 @@ def cli_case(draw):
     vocab = ["--file", "--dir", "--drive", "--drive-first", "--drive-physical", "--show-config", "--help", "--ui",
              "--verbose", "--bogus", "-x", "IMG", "IMG2", "cat", "info", "type", "list", "dump", "dump-sector", "free",
              "space", "sector-map", "show-titles", "help", "extract-files", "extract-unused", "OUT", "acorn", "watford",
-             "opus", "0", "1", "2", "3", "$", "#.*"] + HOSTILE_ARGS
+             "opus", "0", "1", "2", "3", "$", "#.*"] + HOSTILE_ARGS + ODD_FILES
     for _ in range(n):
         words.append(draw(st.sampled_from(vocab)))
     num = st.sampled_from(NUMS)
@@ -127,7 +132,10 @@ def cli_case(draw):
                                 ["--drive", draw(num), "--file", "IMG"], ["--file", "IMG", "--drive", draw(num)],
                                 ["--drive", draw(st.sampled_from(HOSTILE_ARGS)), "--file", "IMG"],
                                 ["--dir", draw(st.sampled_from(HOSTILE_ARGS)), "--file", "IMG"],
-                                ["--ui", draw(st.sampled_from(HOSTILE_ARGS + ["acorn"])), "--file", "IMG"]]))
+                                ["--ui", draw(st.sampled_from(HOSTILE_ARGS + ["acorn"])), "--file", "IMG"],
+                                ["--file", draw(st.sampled_from(ODD_FILES))],
+                                ["--file", "IMG", "--file", draw(st.sampled_from(ODD_FILES))],
+                                ["--file", draw(st.sampled_from(ODD_FILES)), "--file", "IMG"]]))
     return {"kind": "cli", "argv": pre + words + tail, "seed": draw(st.integers(0, 999)),
             "variant_build": draw(st.sampled_from(["asan", "dbg", "ndebug"]))}
 
@@ -362,8 +370,15 @@ class C07(CheckBase):
                 img = sb.file("a.ssd", d)
                 img2 = sb.file("b.ssd", d)
                 fsize = len(d)
-                argv = [dfs] + [img if a == "IMG" else img2 if a == "IMG2" else out if a == "OUT" else a
-                                for a in case["argv"]]
+                odd = {"IMG": img, "IMG2": img2, "OUT": out}
+                if any(a in ODD_FILES for a in case["argv"]):
+                    v.classes.append("cli-odd-file")
+                    odd.update({"IMGDIR": sb.mkdir("dir.ssd"), "MISSING": os.path.join(sb.path, "missing.ssd"),
+                                "NOEXT": sb.file("noext", d), "BADEXT": sb.file("a.xyz", d),
+                                "BAREGZ": sb.file("gz/bare.gz", containers.gz(d, level=6)),
+                                "UPPEREXT": sb.file("u/A.SSD", d), "EMPTYSSD": sb.file("e/empty.ssd", b""),
+                                "DOTONLY": sb.file("d/.ssd", d), "GZDIR": sb.mkdir("dir.ssd.gz")})
+                argv = [dfs] + [odd.get(a, a) for a in case["argv"]]
                 argv = [a.encode("latin-1", "replace").decode("latin-1") for a in argv]
                 argv = [a for a in argv if "\0" not in a]
                 v.classes.append("cli")
